@@ -74,6 +74,11 @@ PROP = {
         "Momo.HTL.C03_hash_history_balanced",
         "Momo.HTL.C03_hash_clear_shrink",
         "Momo.HTL.C03_hash_books_are_table",
+        "Momo.MML.C03_multimap_history_ledger",
+        "Momo.MML.C03_multimap_history_balanced",
+        "Momo.MML.C03_multimap_clear",
+        "Momo.MML.C03_multimap_array_add",
+        "Momo.MML.C03_multimap_array_remove",
     ],
     "harnesses": [
         {"name": "c03_array", "src": "c03_array.cpp", "sanitize": "asan", "flags": ["-DC03_PART=0"], "timeout_quick": 600},
@@ -100,6 +105,8 @@ PROP = {
         {"name": "c03_htledger_open", "src": "c03_htledger.cpp", "sanitize": "asan", "flags": ["-DVF_PART=0"], "timeout_quick": 600},
         {"name": "c03_htledger_open2", "src": "c03_htledger.cpp", "sanitize": "asan", "flags": ["-DVF_PART=1"], "timeout_quick": 600},
         {"name": "c03_htledger_chain", "src": "c03_htledger.cpp", "sanitize": "asan", "flags": ["-DVF_PART=2"], "timeout_quick": 600},
+        {"name": "c03_mmledger", "src": "c03_mmledger.cpp", "sanitize": "asan", "flags": ["-DVF_PART=0"], "timeout_quick": 600},
+        {"name": "c03_mmledger2", "src": "c03_mmledger.cpp", "sanitize": "asan", "flags": ["-DVF_PART=1"], "timeout_quick": 600},
     ],
     "rule": ("14 executables (array x3, hash x4, tree x3, multimap, mempool, datatable, stdish), 45 container configurations. Each history: two "
              "containers of one type (stdish: eight) over stateful managers of equal or unequal identity classes (chosen per history), 55-120 random "
@@ -124,11 +131,13 @@ PROP = {
              "Added for coverage (4 hash executables, 13 configurations, same histories): c03_hashcfg = HashBucketLimP<7> / <15> with pointer state "
              "(24-byte nothrow-move and copy-only keys, 32-byte trivially relocatable pairs); c03_hashpool1 = LimP<3>, LimP<5, no pointer state>, "
              "LimP1<3>, LimP4<4> over MemPoolParams<1> (no DeallocateAll: every bucket array is given back by Clear / destruction one by one); "
-             "c03_hashp48 / c03_hashp32 = LimP4<4>, <2>, <3> with 6- / 4-byte pointer states (32: every block from an arena below 4 GB)."),
+             "c03_hashp48 / c03_hashp32 = LimP4<4>, <2>, <3> with 6- / 4-byte pointer states (32: every block from an arena below 4 GB). "
+             "c03_mmledger (model level, engine mmledger; 2 executables, 4 instantiations of HashMultiMap over open-addressing key tables Open8 / OpenN1<3> / Open2N2<3>, nothrow-move keys, nothrow-move and copy-only values, maxFastCount 7 / 2 / 1 / 4): 5 runs x 260 operations quick (16 x 900 thorough) per instantiation on two containers - Add(key, value) (1/3 under a fault: first allocation refused = bucket array / pool buffer / heap storage, k-th copy throws = key copy, value copy, a copy inside the relocation of copy-only values, bucket array refused, equality functor throws), Add(keyIter, value), InsertKey, Remove(keyIter, index) (refused allocation inside Array::Shrink), Remove(pairFilter), RemoveValues, RemoveKey (throwing equality), ResetKey, Clear, copy assignment with a fault at any stage, move, swap, the monitor's verdict; grow / drain phases drive single arrays through fast -> heap -> grown heap -> shrunk heap -> released. After every operation: contents checksum, key table layout, outstanding blocks by class (key table blocks + crews by address and size, heap arrays by address with capacity * sizeof(Value), pool buffers), live objects."),
     "runtime_only": ["ASan/UBSan on every history; blocks given back are kept poisoned until the end of the history, so a later access aborts",
                      "absence of out-of-bounds accesses inside live blocks",
                      "that the recorder sees every event (elements are instrumented types; plain integers have block events only)"],
-    "not_modelled": ["container-level models Arr, ArrSeg, BTree, MMap, Table emit no ledger traces: no theorem that THEIR histories are balanced (the hash family has one: Momo.HTL)",
+    "not_modelled": ["container-level models Arr, ArrSeg, BTree, Table emit no ledger traces: no theorem that THEIR histories are balanced (the hash family has one: Momo.HTL; the hash multimap has one: Momo.MML)",
+                     "hash multimap (Momo.MML): which buffers the value-array pools hold (observed traffic; Clear / destruction / failed copy return all: pools with blockCount > 1), the pool blocks inside the buffers (fast blocks, Array headers) are not manager blocks and not booked; order deviations listed in the header of Model/MMLedger.lean (first value of a new key booked after the key table's migration; RelocateCreate of copy-only values booked item by item; pvClearValueArrays in book order); key tables with pools (chained bucket kinds) are modelled (OpT.ka / kb) but the harness runs open-addressing key tables only; no formal refinement theorem MML.St.mm = MMap.MM step by step (tied by the harness: contents checksum incl. representation)",
                      "hash family (Momo.HTL): which buffers a memory pool holds (taken from the observed traffic; only 'Clear / destruction / failed copy return all' is the model's own), the relocation of a chained bucket's items into a larger pool block (element objects of the chained kinds are tracked per item; constructor / destructor counts are compared for the open-addressing kinds and One only), the heap arrays of UnlimP buckets beyond their fast storage (booked as pool traffic), Insert(range), ResetKey, the initializer-list constructors, HashMultiMap; AssignAnyway is booked as a use of both objects whatever technique (move assignment, swap, rotation) the item type selects; C03_hash_books_are_table carries the copy-fits side condition of C01's history theorem",
                      "libstdc++ internals behind stdish::pool_allocator (C20)"],
 }
